@@ -157,8 +157,10 @@ func main() {
 					p = planned{kind: "K", d: d, n: 1 + tr.Intn(2), data: []byte(fmt.Sprintf("ac%d.%d", t, i))}
 				case k < 10: // private file, link it under a shared name, delete the private name
 					p = planned{kind: "KLD", d: d, n: 3 + t%6, d2: d, n2: 1 + tr.Intn(2), data: []byte(fmt.Sprintf("pv%d.%d", t, i))}
-				case k < 11 && *impl == "mem": // open the base file, read through the new descriptor, close it
+				case k < 11 && *impl == "mem" && tr.Intn(2) == 0: // open the base file, read through the new descriptor, close it
 					p = planned{kind: "ORX", off: uint64(tr.Intn(5)), ln: uint64(1 + tr.Intn(20))}
+				case k < 11 && *impl == "mem": // private file: create, open, delete its only name, read through the descriptor, close
+					p = planned{kind: "KODRX", d: d, n: 3 + t%6, off: uint64(tr.Intn(3)), ln: uint64(1 + tr.Intn(20)), data: []byte(fmt.Sprintf("gone%d.%d", t, i))}
 				default:
 					p = planned{kind: "S", d: d}
 				}
@@ -221,6 +223,24 @@ func main() {
 							return "N"
 						})
 						do(fmt.Sprintf("D %d %d", p.d, p.n), func() string { fs.Delete(dirNames[p.d], names[p.n]); return "U" })
+					case "KODRX":
+						do(fmt.Sprintf("K %d %d %s", p.d, p.n, enc.RLE(p.data)), func() string {
+							fs.AtomicCreate(dirNames[p.d], names[p.n], p.data)
+							return "U"
+						})
+						var f filesys.File
+						opened := false
+						do(fmt.Sprintf("O %d %d", p.d, p.n), func() string {
+							f = fs.Open(dirNames[p.d], names[p.n])
+							opened = true
+							return fdOf(f)
+						})
+						do(fmt.Sprintf("D %d %d", p.d, p.n), func() string { fs.Delete(dirNames[p.d], names[p.n]); return "U" })
+						if opened {
+							num := int(f) - 1
+							do(fmt.Sprintf("R %d %d %d", num, p.off, p.ln), func() string { return "D " + enc.RLE(fs.ReadAt(f, p.off, p.ln)) })
+							do(fmt.Sprintf("X %d", num), func() string { fs.Close(f); return "U" })
+						}
 					case "ORX":
 						var f filesys.File
 						opened := false
